@@ -223,8 +223,20 @@ impl KnownWord {
     /// Performs exponentiation of two known words.
     #[must_use]
     pub fn exp(self, rhs: Self) -> Self {
-        // The operation takes place in native endianness, which in our case is LE
-        KnownWord::from_le(self.value.wrapping_pow(rhs.value.as_u32()))
+        // The operation takes place in native endianness, which in our case is LE.
+        // The exponent is a full 256-bit word, so we square-and-multiply over all of
+        // its bits rather than truncating it to fit `wrapping_pow`.
+        let mut result = U256::ONE;
+        let mut base = self.value;
+        let mut exponent = rhs.value;
+        while exponent != U256::ZERO {
+            if exponent & U256::ONE == U256::ONE {
+                result = result.wrapping_mul(base);
+            }
+            base = base.wrapping_mul(base);
+            exponent >>= 1u32;
+        }
+        KnownWord::from_le(result)
     }
 
     /// Computes less-than of two known words.
